@@ -663,6 +663,54 @@ func (i *interpreter) format(f value, args []value, wrapped *[]value) (res value
 			panic(r)
 		}
 	}()
+	// finite-symbolic string operands: lift the formatting over their cases (bounded product)
+	symIdx := -1
+	product := 1
+	for k, a := range args {
+		av := a
+		if it, ok := a.(iface); ok {
+			av = it.v
+		}
+		if ss, ok := av.(symStr); ok {
+			r := i.resolveStr(ss)
+			if rs, ok := r.(symStr); ok && rs.itoa == nil {
+				if symIdx < 0 {
+					symIdx = k
+				}
+				product *= len(rs.cases)
+			}
+		}
+	}
+	if symIdx >= 0 && product <= 64 {
+		a := args[symIdx]
+		var t types.Type = tString
+		av := a
+		if it, ok := a.(iface); ok {
+			av, t = it.v, it.t
+		}
+		rs := i.resolveStr(av.(symStr)).(symStr)
+		var out []strCase
+		for _, c := range rs.cases {
+			sub := append([]value{}, args...)
+			if _, ok := a.(iface); ok {
+				sub[symIdx] = iface{t: t, v: c.s}
+			} else {
+				sub[symIdx] = c.s
+			}
+			r := i.format(fs, sub, nil)
+			switch rv := r.(type) {
+			case string:
+				out = append(out, strCase{c.g, rv})
+			case symStr:
+				for _, d := range rv.cases {
+					out = append(out, strCase{tAnd(c.g, d.g), d.s})
+				}
+			default:
+				return opaqueStr{hint: fs}
+			}
+		}
+		return symStr{cases: out}
+	}
 	nat := make([]interface{}, len(args))
 	for k, a := range args {
 		nat[k] = i.nativeArg(a)
